@@ -33,11 +33,26 @@ def policy_text(pol):
     for f in ('comp', 'key', 'opt', 'kex', 'enc', 'mac'):
         if pol.get(f) is not None:
             l.append('%s = %s' % (POLICY_KEY[f], ', '.join(pol[f])))
+    if pol.get('legacy'):
+        # the older directive syntax (still accepted, with a deprecation warning): one line per size, a
+        # certificate's CA size right after its host-key size, as the older releases wrote them
+        for t, e in (pol.get('hks') or {}).items():
+            l.append('hostkey_size_%s = %d' % (t, e['hostkey_size']))
+            if e.get('ca_key_size'):
+                l.append('cakey_size_%s = %d' % (t, e['ca_key_size']))
+        for a, sz in (pol.get('dh') or {}).items():
+            l.append('dh_modulus_size_%s = %d' % (a, sz))
+        return '\n'.join(l) + '\n'
     if pol.get('hks') is not None:
         l.append('host_key_sizes = ' + json.dumps(pol['hks']))
     if pol.get('dh') is not None:
         l.append('dh_modulus_sizes = ' + json.dumps(pol['dh']))
     return '\n'.join(l) + '\n'
+
+
+def legacy_ca_type(hostkey_type):
+    """The CA type the older directive syntax implies (it has no field for it)."""
+    return 'ssh-rsa' if hostkey_type in ('ssh-rsa-cert-v01@openssh.com', 'rsa-sha2-256-cert-v01@openssh.com', 'rsa-sha2-512-cert-v01@openssh.com') else 'ssh-ed25519'
 
 
 def mk_kex(peer):
@@ -170,6 +185,15 @@ def eval_case(case):
         want, open_ = ref_errors(pol, peer)
         classes.append('pass' if not want else 'fail:%d' % min(len(want), 3))
         nt = len(want) == 1 or pol.get('subset') or pol.get('larger') or bool(pol.get('opt'))
+        if pol.get('legacy'):
+            classes.append('legacy-size-directives')
+            try:
+                a = evaluate(pol, peer)
+                b = evaluate({kk: v for kk, v in pol.items() if kk != 'legacy'}, peer)
+                if (a[0], a[1]) != (b[0], b[1]):
+                    fails.append(['older-size-directives-judged-differently', 'policy %r peer %r: %r vs %r' % (pol, peer, a[:2], b[:2])])
+            except Exception as e:
+                fails.append(['policy-evaluation-raised:%s' % type(e).__name__, repr(e)])
         if k == 'full' and passed:
             if pol.get('subset'):
                 for p2 in _shrunk_peers(peer, case.get('del', [])):
@@ -294,7 +318,7 @@ def strat_full():
     """Random large instances: peer first, policy derived from it by random edits so that passes and
     single-field failures are both frequent."""
     def build(t):
-        peer_lists, flags, edits, sizes, dels, grow, comp_on, banner_on = t
+        peer_lists, flags, edits, sizes, dels, grow, comp_on, banner_on, legacy = t
         peer = {'kex': peer_lists[0], 'key': peer_lists[1], 'enc': peer_lists[2], 'mac': peer_lists[3], 'comp': ['none', 'zlib@openssh.com'][:1 + (edits[5] % 2)], 'banner': 'SSH-2.0-OpenSSH_9.%d' % (edits[6] % 3)}
         pol = {'subset': flags[0], 'larger': flags[1]}
         for i, f in enumerate(FIELDS):
@@ -350,9 +374,9 @@ def strat_full():
             extra_dh = {'diffie-hellman-group-exchange-sha1': [2048, 3072][sizes[1] % 2], 'diffie-hellman-group-exchange-sha256@ssh.com': 4096}
             pol['dh'] = dict(dh, **extra_dh)
             peer['dh'] = dict(pdh, **{k: v + [0, 1024, -1024][(sizes[2] + i) % 3] for i, (k, v) in enumerate(extra_dh.items()) if (sizes[3] + i) % 2})
-            extra_hk = {'rsa-sha2-512': {'hostkey_size': 3072}, 'ssh-dss': {'hostkey_size': 1024}}
+            extra_hk = {'rsa-sha2-512': {'hostkey_size': 3072}, 'ssh-dss': {'hostkey_size': 1024}, 'rsa-sha2-512-cert-v01@openssh.com': {'hostkey_size': 3072, 'ca_key_type': 'ssh-rsa', 'ca_key_size': 4096}}
             pol['hks'] = dict(hks, **extra_hk)
-            peer['hks'] = dict(phks, **{k: [v['hostkey_size'] + [0, 1024, -512][(sizes[4] + i) % 3], '', 0] for i, (k, v) in enumerate(extra_hk.items()) if (sizes[5] + i) % 2})
+            peer['hks'] = dict(phks, **{k: [v['hostkey_size'] + [0, 1024, -512][(sizes[4] + i) % 3], v.get('ca_key_type', ''), (v['ca_key_size'] + [0, 0, -1024][(sizes[6] + i) % 3]) if v.get('ca_key_size') else 0] for i, (k, v) in enumerate(extra_hk.items()) if (sizes[5] + i) % 2})
         if edits[1] % 5 == 0:
             pol['client'] = True
         if edits[2] % 3 == 0:
@@ -361,6 +385,8 @@ def strat_full():
             peer['comp_c'] = ['zlib']
         if banner_on:
             pol['banner'] = 'SSH-2.0-OpenSSH_9.1'
+        if legacy and (pol.get('hks') or pol.get('dh')) and all(legacy_ca_type(t) == e.get('ca_key_type', legacy_ca_type(t)) for t, e in (pol.get('hks') or {}).items() if e.get('ca_key_size')):
+            pol['legacy'] = True
         return {'kind': 'full', 'pol': pol, 'peer': peer, 'del': [[f, idx] for f, idx in dels], 'grow': grow}
     return st.tuples(
         st.tuples(name_lists('kex'), name_lists('key'), name_lists('enc'), name_lists('mac')),
@@ -368,7 +394,7 @@ def strat_full():
         st.lists(st.integers(0, 11), min_size=7, max_size=7),
         st.lists(st.integers(0, 11), min_size=11, max_size=11),
         st.lists(st.tuples(st.sampled_from(FIELDS), st.lists(st.integers(0, 5), min_size=1, max_size=3)), min_size=1, max_size=3),
-        st.sampled_from([1, 64, 1024]), st.booleans(), st.booleans()).map(build)
+        st.sampled_from([1, 64, 1024]), st.booleans(), st.booleans(), st.booleans()).map(build)
 
 
 def run(ctx):
